@@ -5,7 +5,7 @@ import itertools
 ID = "C10"
 SCHEDULE_DEPENDENT = True     # a failure that does not recur when the case is re-run is still reported (engine: report())
 THEOREM_MODULE = "SimVerif.Props.C10"
-THEOREM_MODULES = ["SimVerif.Props.C10", "SimVerif.Tie.Track", "SimVerif.Tie.StoreCmd", "SimVerif.Tie.FanOut"]
+THEOREM_MODULES = ["SimVerif.Props.C10", "SimVerif.Tie.Track", "SimVerif.Tie.StoreCmd", "SimVerif.Tie.FanOut", "SimVerif.Props.C10s"]
 NONTRIVIAL_FLAGS = {"iterator", "results", "errors", "multi-cand", "owned-multi", "interleaved-shards", "only-baked", "plan-workersfirst", "plan-callerfirst", "plan-order"}
 RULE = ("cases = a store with 1..4 shards filled with tracks of 0..3 observations in 1..3 classes (mixed compatibility and status through the attribute values), then `store fdist` (1..4 external candidates) and `store odist` (stored candidates) "
         "with both only_baked settings, the results read either with all() or through the streaming iterators (`fdisti` / `odisti`); before a query a schedule plan is installed through the similari_verif hook: `order` = an explicit interleaving of the per-shard command executions (all interleavings for <=6 commands in the thorough tier, random otherwise), "
